@@ -229,6 +229,17 @@ _FB = _cls_methods(FUNCTION_BUILDER, 'boltons.funcutils', [
     {'py': 'remove_arg', 'name': 'remove_arg', 'params': {'arg_name': 'κ'}, 'result': 'None',
      'tie_theorem': 'C13.src_remove_arg_eq_model'},
 ])
+# the decision logic of `update_wrapper` on the builder `fb` (a REGION of the module-level function, cut out by the
+# pre-pass: the statements after `fb = FunctionBuilder.from_func(...)` up to the first one that uses anything but the
+# declared parameters and the builder's declared attributes / translated methods): the `injected` loop, the `expected`
+# loop and the `call_name` collision loop.  `call_name` is a NAME built from string literals: `PyRtC13.Names κ`.
+_UW = {'py': 'update_wrapper', 'qualname': 'update_wrapper', 'module': 'boltons.funcutils', 'cls': FUNCTION_BUILDER,
+       'method': True, 'lean_name': 'FunctionBuilder.update_wrapper_core', 'kind': 'function', 'raises': True,
+       'loop_fuel': True, 'region': {'object': 'fb', 'result': 'call_name'}, 'names': ['call_name'],
+       'classes': ['PyRtC13.Names κ'],
+       'params': {'injected': 'List κ', 'expected_items': 'List (κ × Option ν)', 'inject_to_varkw': 'Bool'},
+       'result': 'κ', 'tie_theorem': 'C13.src_update_wrapper_core_eq_model'}
+_FB = _FB + [_UW]
 for _sp in _FB:
     _sp['gen_file'] = _FB_GEN
 
